@@ -59,6 +59,8 @@
 //!  binding-open  delete the `}}` of a binding                                  MissingExpressionEnd if no  Fatal
 //!                                                                              `}}` follows, else any Fatal
 //!                                                                              expression kind
+//!  binding-inner append ` +` / ` ? 1` / ` (` / ` [` / ` .` / ` &&` / an unterminated  any kind                    Warn
+//!                string (also cut by a line break) to a complete expression
 //!  binding-junk  insert ` x` / ` )` / ` #` / ` ]` / ` <astral>` before `}}`     UnexpectedExpressionChar.   Fatal
 //!  wx-directive  add `wx:foo="x"` / `wx:show="{{a}}"` / `wx:For` to a tag       InvalidAttributePrefix      Warn
 //!  attr-prefix   add `foo:bar="x"` / `binds:tap="h"` / `a:b:c` / `Wx:if=..`     InvalidAttributePrefix      Warn
@@ -105,7 +107,7 @@ use std::ops::Range;
 /// observation; without the variable the same input (and the whole search) is clean.
 pub const KNOWN: &[(&str, &str, &str)] = &[];
 
-const BOUND_HEAD: &str = "LCG-enumerated WXML: clean = 32 directed structures x 7 gap styles x <= 2 seeds, expression pool (77) x 12 binding contexts (style rotating) + x 7 styles (context rotating), 27 attribute kinds x 8 value forms x styles, 10 text forms x 19 statics x styles, 26 guide examples + 3 Note-level spellings + 4 class: / style: non-duplicates, 700 random composites of depth <= 3 (duplicates removed); broken = every applicable single defect injection (end-tag, tag-eof, tag-mid, endtag-eof, binding-open, binding-junk, wx-directive, attr-prefix, dup-attr, dup-module, dup-style (directed), child, no-src, no-module, no-is) at every site of every clean template, + 10 directed class: / style: duplicates; fuzz (locations only) = 98 directed broken snippets x 4 embeddings, then every prefix, single-character deletion and insertion of 36 fragments at every position (a rotating third of the fragments for bases over 60 characters) over the base corpus (snippets, guide examples, the structures in compact style and a third of them in each of 3 astral / CRLF styles)";
+const BOUND_HEAD: &str = "LCG-enumerated WXML: clean = 32 directed structures x 7 gap styles x <= 2 seeds, expression pool (77) x 12 binding contexts (style rotating) + x 7 styles (context rotating), 27 attribute kinds x 8 value forms x styles, 10 text forms x 19 statics x styles, 26 guide examples + 3 Note-level spellings + 4 class: / style: non-duplicates, 700 random composites of depth <= 3 (duplicates removed); broken = every applicable single defect injection (end-tag, tag-eof, tag-mid, endtag-eof, binding-open, binding-junk, binding-inner, wx-directive, attr-prefix, dup-attr, dup-module, dup-style (directed), child, no-src, no-module, no-is) at every site of every clean template, + 10 directed class: / style: duplicates; fuzz (locations only) = 98 directed broken snippets x 4 embeddings, then every prefix, single-character deletion and insertion of 36 fragments at every position (a rotating third of the fragments for bases over 60 characters) over the base corpus (snippets, guide examples, the structures in compact style and a third of them in each of 3 astral / CRLF styles)";
 
 fn strict(id: &str) -> bool {
     static S: std::sync::OnceLock<String> = std::sync::OnceLock::new();
@@ -123,9 +125,9 @@ fn level_of(e: &ParseError) -> u8 { e.level() as u8 }
 fn level_name(l: u8) -> &'static str { match l { 1 => "Note", 2 => "Warn", 3 => "Error", 4 => "Fatal", _ => "?" } }
 
 #[derive(Clone, Copy, PartialEq, Eq, Debug, Hash)]
-enum Defect { EndTag, TagEof, TagMid, EndTagEof, BindingOpenLast, BindingOpen, BindingJunk, WxDirective, AttrPrefix, DupAttr, DupModule, DupStyle, Child, NoSrc, NoModule, NoIs }
+enum Defect { EndTag, TagEof, TagMid, EndTagEof, BindingOpenLast, BindingOpen, BindingJunk, BindingInner, WxDirective, AttrPrefix, DupAttr, DupModule, DupStyle, Child, NoSrc, NoModule, NoIs }
 const DEFECTS: &[Defect] = &[
-    Defect::EndTag, Defect::TagEof, Defect::TagMid, Defect::EndTagEof, Defect::BindingOpenLast, Defect::BindingOpen, Defect::BindingJunk,
+    Defect::EndTag, Defect::TagEof, Defect::TagMid, Defect::EndTagEof, Defect::BindingOpenLast, Defect::BindingOpen, Defect::BindingJunk, Defect::BindingInner,
     Defect::WxDirective, Defect::AttrPrefix, Defect::DupAttr, Defect::DupModule, Defect::DupStyle, Defect::Child, Defect::NoSrc, Defect::NoModule, Defect::NoIs,
 ];
 struct Spec { id: &'static str, kinds: &'static [K], level: u8, known: Option<&'static str> }
@@ -139,6 +141,7 @@ fn spec(d: Defect) -> Spec {
         Defect::BindingOpenLast => ("binding-open-last", &[K::MissingExpressionEnd], FATAL, None),
         Defect::BindingOpen => ("binding-open", FATAL_EXPR_KINDS, FATAL, None),
         Defect::BindingJunk => ("binding-junk", &[K::UnexpectedExpressionCharacter], FATAL, None),
+        Defect::BindingInner => ("binding-inner", &[], WARN, None),
         Defect::WxDirective => ("wx-directive", &[K::InvalidAttributePrefix], WARN, None),
         Defect::AttrPrefix => ("attr-prefix", &[K::InvalidAttributePrefix], WARN, None),
         Defect::DupAttr => ("dup-attr", &[K::DuplicatedAttribute], WARN, None),
@@ -1041,6 +1044,11 @@ fn injections(t: &Tpl, mut f: impl FnMut(Defect, String) -> bool) {
         const JUNK: [&str; 5] = [" x", " )", " #", " ]", " \u{1F600}"];
         emit!(Defect::BindingJunk, splice(s, b.close..b.close, JUNK[bi % 5]));
         emit!(Defect::BindingJunk, splice(s, b.close..b.close, JUNK[(bi + 2) % 5]));
+        // binding-inner: the complete expression is continued by something that cannot end an expression -- a dangling
+        // operator, an unfinished ternary, an unclosed bracket, a member access without a name, an unterminated string
+        // (also one cut by a line break).  Whatever follows, the binding is broken: a diagnostic at Warn or above is due.
+        const INNER: [&str; 9] = [" +", " ? 1", " (", " [", " .", " 'abc", " 'abc\n", " \"q\n ", " &&"];
+        for k in 0..4 { emit!(Defect::BindingInner, splice(s, b.close..b.close, INNER[(bi * 4 + k) % 9])); }
     }
 }
 
